@@ -482,6 +482,15 @@ func pumpModel(family string, n int) *openfgav1.AuthorizationModel {
 			fmt.Fprintf(&sb, "    define r%d: a%d or b%d\n    define a%d: r%d\n    define b%d: r%d\n", i, i, i, i, i+1, i, i+1)
 		}
 		fmt.Fprintf(&sb, "    define r%d: [user]\n", n)
+	case "wilddiamonds", "wildladder": // the diamonds / a two-way ladder over a relation that admits TWO public types: every node on the way merges both lists twice
+		for i := 0; i < n; i++ {
+			if family == "wilddiamonds" {
+				fmt.Fprintf(&sb, "    define r%d: a%d or b%d\n    define a%d: r%d\n    define b%d: r%d\n", i, i, i, i, i+1, i, i+1)
+			} else {
+				fmt.Fprintf(&sb, "    define r%d: r%d or r%d\n", i, i+1, i+1)
+			}
+		}
+		fmt.Fprintf(&sb, "    define r%d: [user:*, emp:*, user]\n\ntype emp\n", n)
 	case "ttuchain": // r_i: [user] or r_{i+1} from p
 		for i := 0; i < n; i++ {
 			fmt.Fprintf(&sb, "    define r%d: [user] or r%d from p\n", i, i+1)
